@@ -120,10 +120,16 @@ def c12_blocks(rng, tier):
             b.append("drophandles")
             b.append("check %d" % rng.choice(watched))
         elif r < 0.85:
+            if rng.random() < 0.15:
+                # somebody clears one of its signals behind the instance's back first (the deprecated registry
+                # call): the ids it recorded are stale, dropping it must cope
+                b.append("unregsig %d" % rng.choice(watched))
             b.append("drop")
             b.append("check %d" % rng.choice(watched))
         b.append("usable")
         blocks.append(b)
+    blocks.append(["new only 10 12", "unregsig 10", "check 10", "check 12", "drop", "check 12", "usable"])
+    blocks.append(["new raw 10 12", "unregsig 12", "check 12", "dropinst", "drophandles", "check 10", "usable"])
     blocks.append(["new only 10", "dropinst", "hadd 12", "drophandles", "check 12", "usable"])
     blocks.append(["new raw 10", "dropinst", "hadd 12", "hadd 9", "hadd 14", "drophandles", "check 14", "usable"])
     # constructor failures
@@ -230,6 +236,9 @@ def monitor_c12(block, impl):
                 want = "[%d]" % n if (alive and n in watched and not inst_gone) else "[]"
                 if "yielded=%s" % want not in res or "flag=true" not in res:
                     probs.append("`%s`: expected flag=true yielded=%s%s, got `%s`" % (op, want, (" (after rejected `%s`)" % poisoned_by) if poisoned_by else "", res))
+        elif w[0] == "unregsig":
+            # cleared behind the instance's back: no longer delivered through it; everything else as before
+            watched.discard(int(w[1]))
         elif w[0] == "dropinst":
             inst_gone = True
         elif w[0] == "drophandles":
